@@ -45,7 +45,7 @@ func (a *AttrConditionPlanner) Process(ctx *shared.PlannerContext) (sql.ISelect,
 	}
 
 	res := main
-	if len(a.where) > 0 {
+	if len(a.where) > 0 && a.whereImplied(a.Conds) {
 		res = res.AndWhere(sql.Or(a.where...))
 	}
 	res = res.AndHaving(having)
@@ -85,15 +85,42 @@ func (a *AttrConditionPlanner) maybeCreateWhere() error {
 		}
 		a.sqlConds = append(a.sqlConds, sqlTerm)
 
-		if !strings.HasPrefix(t.Label, "span.") &&
-			!strings.HasPrefix(t.Label, "resource.") &&
-			!strings.HasPrefix(t.Label, ".") &&
-			t.Label != "name" {
+		if !isAttrTerm(t.Label) {
 			continue
 		}
 		a.where = append(a.where, sqlTerm)
 	}
 	return nil
+}
+
+// whereImplied tells whether every span that satisfies c has a row matching one of
+// the attribute terms collected in a.where - only then may those terms pre-filter
+// the rows: {.a="x" || duration>1s} must also see the spans that have no .a at all.
+func (a *AttrConditionPlanner) whereImplied(c *condition) bool {
+	if c.simpleIdx != -1 {
+		return isAttrTerm(a.Terms[c.simpleIdx].Label)
+	}
+	if c.op == "&&" {
+		for _, s := range c.complex {
+			if a.whereImplied(s) {
+				return true
+			}
+		}
+		return false
+	}
+	for _, s := range c.complex {
+		if !a.whereImplied(s) {
+			return false
+		}
+	}
+	return true
+}
+
+func isAttrTerm(label string) bool {
+	return strings.HasPrefix(label, "span.") ||
+		strings.HasPrefix(label, "resource.") ||
+		strings.HasPrefix(label, ".") ||
+		label == "name"
 }
 
 func (a *AttrConditionPlanner) aggregator(main sql.ISelect) error {
